@@ -31,6 +31,7 @@ def run(ctx):
             if n_ok:
                 ctx.record('C03:wilson:critical-value-from-the-oracle', 'M', 'held', bound='structural, all Ok paths of ci_wilson', sample={'obligation': 'every Ok path of ci_wilson applies Zq in this call', 'paths': n_ok})
             rank_terms(ctx, m)
+            data_terms(ctx, m)
         except mir.Stuck as e:
             m.stuck('C03:M', 'unsupported construct: %s' % e)
         m.finish()
@@ -104,4 +105,108 @@ def rank_terms(ctx, m):
             m.submit('C03:rank-terms:too-few-samples-only-below-4', r.pc, T.and_(validq, T.mk('ilt', n, T.iconst(4))), sem=('R', 'int'), key='C03:rank:too-few-samples-variant', vacuity=False)
         elif r.kind == 'return' and E.is_ok(r.value):
             m.submit('C03:rank-terms:ok-only-inside:%s' % KNAME[E.pc_kind(r.pc)], r.pc, T.and_(validq, T.mk('ige', n, T.iconst(4))), sem=('R', 'int'), key='C03:rank:ok-outside-domain', vacuity=False)
+    m.collect()
+
+
+def flat_pc(pc):
+    out = []
+    for c in pc:
+        if c[0] == 'and':
+            out += flat_pc(c[1:])
+        else:
+            out.append(c)
+    return out
+
+
+def data_terms(ctx, m):
+    """Engine M on the data-level entry points for EVERY sample size (the K harnesses decide 4-5 symbolic and 20 concrete elements):
+    the sample is an abstract buffer of symbolic length n whose positions are either guaranteed to hold their own order statistic
+    (after a full ascending sort: all positions; after select_nth_unstable(i): position i only) or not; ci_indices is replaced by a
+    symbolic result of the requested kind (closed by the rank obligations). Obligation: on every Ok path the bounds are the elements
+    read at exactly the ranks ci_indices returned, from guaranteed positions; no other error or panic is reachable."""
+    from mirsmt import engine as E, term as T, mir
+    from props.common_m import KNAME, VARIANT
+    from vlib import native
+    n, q = T.var('n', 'i'), T.var('q')
+    L, H, ERR = T.var('RL', 'i'), T.var('RH', 'i'), T.var('IDXERR', 'b')
+    replay = lambda model, p: native.replay_quantile_data(ctx, p['name'])
+    entries = [('ci', [g for g in m.fns if g.name == 'quantile::ci'], frozenset()),
+               ('ci_max_size', [g for g in m.fns if g.name == 'ci_max_size'], frozenset()),
+               ('ci_sorted_unchecked', [g for g in m.fns if g.name == 'ci_sorted_unchecked'], 'all')]
+    for ename, cands, guar0 in entries:
+        if len(cands) != 1:
+            m.stuck('C03:data-terms:' + ename, 'cannot identify %s in the MIR dump (%d candidates)' % (ename, len(cands)))
+            continue
+        rec = []
+        orig = m.models.dispatch
+
+        def dispatch(mach, st, fid, callee, argv):
+            if callee.split('::')[-1] == 'ci_indices':
+                rec.append(argv)
+                cf = mach.deref(st, argv[0])
+                if cf[0] != 'symenum':
+                    raise mir.Stuck('ci_indices called with a constant confidence')
+                fl = flat_pc(st['pc'])
+                alts = []
+                if ERR not in fl:
+                    shapes = [[('i', L), ('i', H)], [('i', L)], [('i', H)]]
+                    fixed = E.pc_kind(fl)
+                    for k in range(3):
+                        if fixed is not None and fixed != k:
+                            continue
+                        alts.append((T.and_(T.not_(ERR), T.mk('ieq', cf[2], T.iconst(k))), ('adt', 'Result', 0, [('adt', 'Interval', k, shapes[k])])))
+                if T.not_(ERR) not in fl:
+                    alts.append((ERR, ('adt', 'Result', 1, [('adt', 'CIError', mir.VARIANTS['CIError'].index('TooFewSamples'), [('i', n)])])))
+                return alts
+            return orig(mach, st, fid, callee, argv)
+        m.models.dispatch = dispatch
+        try:
+            res = m.run(cands[0], [E.confidence(), ('ref', 0, '_data', ()), ('f', q)], {'_data': ('buf', n, guar0, 0)})
+            mach = m.last_machine
+        finally:
+            m.models.dispatch = orig
+        bad = [r for r in res if r.kind == 'stuck']
+        if bad:
+            m.stuck('C03:data-terms:' + ename, bad[0].value[1])
+            continue
+        name = 'C03:data-terms:%s' % ename
+        okargs = bool(rec) and all(a[1][0] == 'i' and a[1][1] == n and a[2][0] == 'f' and a[2][1] == q and a[0][0] == 'symenum' for a in rec)
+        if okargs:
+            ctx.record(name + ':ci_indices-arguments', 'M', 'held', bound='syntactic, every n', sample={'obligation': '%s calls ci_indices(confidence, data.len(), quantile)' % ename, 'verdict': 'same terms'})
+        else:
+            m.violated_structurally(name + ':ci_indices-arguments', 'C03:data:ci_indices-arguments', '%s does not hand (confidence, len, quantile) to ci_indices' % ename, replay=replay)
+        os_ = lambda t: mach.buf_vars.get(('os', t))
+        contract = [T.mk('ile', T.iconst(0), L), T.mk('ile', L, H), T.mk('ilt', H, n)]
+        mono = []
+        if os_(L) is not None and os_(H) is not None:
+            mono = [T.mk('fle', os_(L), os_(H))]            # order statistics are monotone in the rank (L <= H by the ci_indices contract)
+        seen, good = set(), True
+        for ri, r in enumerate(res):
+            fl = flat_pc(r.pc)
+            k = E.pc_kind(fl)
+            if r.kind == 'panic':
+                m.submit(name + ':no-panic[%d:%s]' % (ri, str(r.value[1])[:30]), fl + contract + mono, T.bconst(False), sem=('R', 'int'), key='C03:data:panic', vacuity=False, on_sat=replay)
+                continue
+            if r.kind != 'return':
+                continue
+            if E.is_ok(r.value):
+                variant, bounds = E.interval_parts(r.value)
+                seen.add(k)
+                want = {0: [os_(L), os_(H)], 1: [os_(L)], 2: [os_(H)]}.get(k)
+                if k is None or ERR in fl or variant != VARIANT[k] or bounds != want:
+                    good = False
+                    m.violated_structurally(name + ':order-statistics:' + (KNAME[k] if k is not None else '?'), 'C03:data:order-statistics',
+                                            '%s: the reported bounds are not the elements at the ranks of ci_indices read from positions that hold their order statistic (kind %s: %s)' % (ename, k, [T.show(b)[:40] for b in bounds]), replay=replay)
+            elif E.is_err(r.value, 'InvalidQuantile'):
+                validq = T.and_(T.mk('flt', T.fconst(0), q), T.mk('flt', q, T.fconst(1)))
+                m.submit(name + ':invalid-quantile-only-outside[%d]' % ri, fl, T.not_(validq), sem=('R', 'int'), key='C03:data:invalid-quantile', vacuity=False, on_sat=replay)
+            elif ERR in fl and E.is_err(r.value, 'TooFewSamples'):
+                pass        # the error of ci_indices handed through
+            else:
+                m.submit(name + ':no-other-error[%d:%s]' % (ri, mir.show(r.value)[:40]), fl + contract + mono, T.bconst(False), sem=('R', 'int'), key='C03:data:other-error', vacuity=False, on_sat=replay)
+        if good and seen == {0, 1, 2}:
+            ctx.record(name + ':order-statistics', 'M', 'held', bound='syntactic, every n, every kind',
+                       sample={'obligation': '%s: bounds == elements at the ci_indices ranks, read from sorted positions' % ename, 'verdict': 'same terms', 'kinds': 3})
+        elif good:
+            m.stuck(name + ':coverage', 'Ok paths for kinds %s only' % sorted(x for x in seen if x is not None))
     m.collect()
